@@ -9,12 +9,13 @@ SPECS = [p_kani.Spec("steel-core", "steel-core/src/primitives/numbers.rs", "num.
 
 FUNCS = ["primitives::numbers::{add_two, add_two_fallible, negate, abs, subtract_primitive, multiply_two, truncate_quotient, "
          "truncate_remainder, floor_quotient, floor_remainder, euclidean_quotient, euclidean_remainder, even, odd, "
-         "exact_integer_sqrt, exact_integer_impl}", "primitives::IntoSteelVal for {isize, BigInt} (canonicalisation)"]
+         "exact_integer_sqrt, exact_integer_impl, arithmetic_shift}", "primitives::IntoSteelVal for {isize, BigInt} (canonicalisation)"]
 
 ASSUME = [
     "stub: std::rt::thread_cleanup = no-op (Kani ICE workaround); alloc::fmt::format returns an empty String (error text is not checked, error VALUES are)",
     "stub: core::arch::x86_64::{_addcarry_u64,_subborrow_u64} replaced by their arithmetic definition (Kani does not model the LLVM intrinsic)",
     "model: num-bigint's `BigInt += isize` and `BigInt *= isize` are replaced by exact i128 arithmetic for magnitudes < 2^126 (num-bigint is a dependency, not the subject)",
+    "model: `BigInt << u32` is not executed; the stub records its operands (the harness checks they are (n, m) and that the path is taken exactly when the result does not fit)",
     "num_neg_rational only: `Ratio::new` skips the reduction (the operands are already in lowest terms with a positive denominator)",
     "feature set std,sync,biased,imbl,rooted-instructions (no jit2/dylibs); results are IntV/BigNum values that are mem::forgotten (drop glue is not the subject)",
     "Kani checks overflow as the dev/test profile does; release-profile wrap-around is covered by the value oracle",
@@ -33,6 +34,7 @@ def plan(tier):
         {"h": "num_add_big_i", "sym": "big integer a just beyond +-2^63, y: isize, either argument order"},
         {"h": "num_neg_rational", "sym": "n/3 for every i32 n not divisible by 3"},
         {"h": "num_int_float_equality", "sym": "i: isize, f: finite f64"},
+        {"h": "num_arithmetic_shift_exact", "sym": "n: isize, m: isize (both full width)"},
     ]
     t = [
         {"h": "num_add_fallible_ii", "sym": SYM2},
